@@ -2,9 +2,10 @@
    Only pinned statements, [exact] proofs and [Print Assumptions].
    Proved here: the callback trace, the index form and its fixpoint, chained key sources, and the
    string forms (Path / JsonPath written form parses back: C15 theorems re-used).  The round trip
-   through names needs pairwise distinct child names (see DESIGN.md: known finding for `rename`). *)
+   through names holds for pairwise distinct child names (Names_proofs.v) and fails otherwise
+   (C04_dup_names_refuted; known finding for `rename` collisions, DESIGN.md). *)
 From Coq Require Import List NArith ZArith Lia.
-From MC Require Import Str Str_proofs Packed Tree Spec Tree_proofs NoPanic Transcode_proofs.
+From MC Require Import Str Str_proofs Packed Tree Spec Tree_proofs NoPanic Transcode_proofs Names_proofs.
 Import ListNotations.
 
 (* once per consumed key, in order: the reported depth is the number of callbacks *)
@@ -45,8 +46,42 @@ Example C04_ex : wf ex_t /\ small ex_t /\
   trav nofail ex_t (KIter [KInt 1; KInt 2]) [] = (ROk 2, [(2%N, None, 3%N); (1%N, Some [98%N], 2%N)]).
 Proof. repeat split; simpl; try discriminate; try lia. Qed.
 
+(* the name form: the names (decimal indices where children are unnamed) reported to the callback,
+   used as a key, reach the same node with the same trace, if the child names of every node are
+   pairwise distinct *)
+Theorem C04_name_form_fixpoint : forall t k pre r calls, wf t -> small t -> nodup_names t ->
+  trav nofail t k pre = (r, calls) -> reached r ->
+  exists new, calls = new ++ pre /\ trav nofail t (KIter (map name_key (rev new))) pre = (r, calls).
+Proof. exact name_form_fixpoint. Qed.
+Theorem C04_parse_itoa : forall i, (i < 18446744073709551616)%N -> parse_usize (itoa i) = Some i.
+Proof. exact parse_itoa. Qed.
+(* what transcode writes into a Path / JsonPath for a reached node, split again by PathIter /
+   JsonPathIter, resolves to the same node with the same trace *)
+Theorem C04_path_roundtrip : forall sep t k r calls, wf t -> small t -> nodup_names t ->
+  trav nofail t k [] = (r, calls) -> reached r ->
+  Forall (fun c => sep_free sep (name_text c)) calls ->
+  trav nofail t (KIter (map KStr (root_keys sep (concat (map (call_text_path sep) (rev calls)))))) [] = (r, calls).
+Proof. exact path_roundtrip. Qed.
+Theorem C04_json_roundtrip : forall t k r calls, wf t -> small t -> nodup_names t ->
+  trav nofail t k [] = (r, calls) -> reached r ->
+  Forall (fun c : call => match snd (fst c) with Some n => delim_free n | None => True end) calls ->
+  trav nofail t (KIter (map KStr (json_keys (concat (map call_text_json (rev calls)))))) [] = (r, calls).
+Proof. exact json_roundtrip. Qed.
+(* the hypothesis is necessary: with two equal names the later child cannot be reached by name *)
+Theorem C04_dup_names_refuted :
+  let t := NHet HStruct (Named [[97]; [97]]%N) [(no_attrs, NLeaf KLeaf); (no_attrs, NLeaf KLeaf)] in
+  fst (trav nofail t (KIter [KInt 1]) []) = ROk 1 /\
+  snd (trav nofail t (KIter [KInt 1]) []) = [(1, Some [97], 2)]%N /\
+  snd (trav nofail t (KIter [name_key (1, Some [97], 2)%N]) []) = [(0, Some [97], 2)]%N.
+Proof. exact dup_names_refuted. Qed.
+
 Print Assumptions C04_callback_count.
 Print Assumptions C04_index_form_fixpoint.
 Print Assumptions C04_chain_concat.
 Print Assumptions C04_path_written_form.
 Print Assumptions C04_json_written_form.
+Print Assumptions C04_name_form_fixpoint.
+Print Assumptions C04_parse_itoa.
+Print Assumptions C04_path_roundtrip.
+Print Assumptions C04_json_roundtrip.
+Print Assumptions C04_dup_names_refuted.
